@@ -20,17 +20,18 @@
    entry is present and not Justified.
 
    Expired() is the transcription of entryDone(..., finishedOnly=false) of felix/bpf/conntrack/cleanup.go
-   with the timeouts of timeouts.go as the record TO (the 2-minute "RST with residual traffic" rule is
-   TO.resid).  All times are in the same unit (the harness uses seconds).                            *)
+   with the timeouts of timeouts.go as the record `to` (the 2-minute "RST with residual traffic" rule is
+   to.resid).  All times are in the same unit (the harness uses seconds).                            *)
 EXTENDS Integers, FiniteSets, Sequences, TLC
 
-CONSTANTS Keys,      \* universe of conntrack keys (strings)
-          TO         \* [syn, est, fin, rst, udp, icmp, gen, resid : Nat]
+CONSTANTS Keys       \* universe of conntrack keys (strings)
 
 VARIABLES ct,        \* [Keys -> Entry]
           now,       \* kernel clock
-          obs        \* [Keys -> Obs]
-pvars == <<ct, now, obs>>
+          obs,       \* [Keys -> Obs]
+          to         \* the configured timeouts [syn, est, fin, rst, udp, icmp, gen, resid : Nat]; never changes
+                     \* within a run (a variable only because every recorded trace brings its own)
+pvars == <<ct, now, obs, to>>
 
 \* entry types
 TNormal == 0
@@ -56,16 +57,16 @@ FinsSeen(e) == (e.dsr /\ (Bit(e.a, BFin) \/ Bit(e.b, BFin))) \/ (Bit(e.a, BFin) 
 Expired(e, t) ==
     LET age == t - e.ls IN
     IF e.pr = 6 THEN
-        \/ RstSeen(e) /\ age > TO.rst
-        \/ FinsSeen(e) /\ age > TO.fin
+        \/ RstSeen(e) /\ age > to.rst
+        \/ FinsSeen(e) /\ age > to.fin
         \/ /\ Established(e) \/ e.dsr
-           /\ \/ e.rr /\ age > TO.resid
-              \/ age > TO.est
+           /\ \/ e.rr /\ age > to.resid
+              \/ age > to.est
         \/ /\ ~(Established(e) \/ e.dsr)
-           /\ age > TO.syn
-    ELSE IF e.pr \in {1, 58} THEN age > TO.icmp
-    ELSE IF e.pr = 17 THEN age > TO.udp
-    ELSE age > TO.gen
+           /\ age > to.syn
+    ELSE IF e.pr \in {1, 58} THEN age > to.icmp
+    ELSE IF e.pr = 17 THEN age > to.udp
+    ELSE age > to.gen
 
 \* ---- the property ---------------------------------------------------------------------------------
 Justified(g) ==
@@ -90,28 +91,26 @@ Removable(k) ==
          ELSE Expired(ct[k], now)
 
 \* ---- actions --------------------------------------------------------------------------------------
-Init == ct \in [Keys -> {Absent}] /\ now = 0 /\ obs = [k \in Keys |-> NoObs]
-
-Tick(d) == d >= 0 /\ now' = now + d /\ UNCHANGED <<ct, obs>>
+Tick(d) == d >= 0 /\ now' = now + d /\ UNCHANGED <<ct, obs, to>>
 
 \* a packet (or several entries written by one packet): every written entry exists with last_seen = now
 PktSet(m) ==
     /\ DOMAIN m \subseteq Keys
     /\ \A k \in DOMAIN m : m[k].ex /\ m[k].ls = now
     /\ ct' = [k \in Keys |-> IF k \in DOMAIN m THEN m[k] ELSE ct[k]]
-    /\ UNCHANGED <<now, obs>>
+    /\ UNCHANGED <<now, obs, to>>
 
 \* the scanner reads entry k as value e.  Only an observation with the largest last_seen can ever match
 \* the entry again (last_seen never decreases), so that one is kept; ties: the later one.
 ObsUpd(o, k, e, t) == [o EXCEPT ![k] = IF o[k].set /\ o[k].e.ls > e.ls THEN @
                                           ELSE [set |-> TRUE, e |-> e, at |-> t]]
-Observe(k, e) == obs' = ObsUpd(obs, k, e, now) /\ UNCHANGED <<ct, now>>
+Observe(k, e) == obs' = ObsUpd(obs, k, e, now) /\ UNCHANGED <<ct, now, to>>
 
 Delete(k) ==
     /\ ct[k].ex
     /\ DeleteOK(k)
     /\ ct' = [ct EXCEPT ![k] = Absent]
-    /\ UNCHANGED <<now, obs>>
+    /\ UNCHANGED <<now, obs, to>>
 
 \* as an action property for implementation-shaped specs: every step that removes an entry is allowed
 SafeStep == \A k \in Keys : (ct[k].ex /\ ~ct'[k].ex) => DeleteOK(k)
